@@ -101,7 +101,7 @@ def SYNC(signal_rx: electrical_signal | np.ndarray,
     if np.max(corr) < 3*np.std(corr): 
         raise ValueError('No correlation maximum found!!') # false positive
     
-    i = np.argmax(corr)
+    i = np.argmax(corr[:l]) # delays 0..l-1: lag l is the alignment of lag 0 one pattern later (it ties with it and would leave an empty signal)
 
     signal_sync = electrical_signal(signal_rx[i:-(l-i)])
     signal_sync.execution_time = toc()
